@@ -288,7 +288,7 @@ public:
 
         m_data.erase(theFirst, theLast);
 
-        m_size = m_data.size() - 1;
+        m_size = m_data.empty() == true ? 0 : m_data.size() - 1;
 
         invariants();
 
